@@ -36,14 +36,18 @@ CLAIMED = {
             "order when each tomogram's molecules are contiguous in the table (otherwise: recorded known finding); uses the "
             "trusted derived lemma 'contiguous keys => consecutive groups' of the polars group_by contract; "
             "BatchLoader.add_tomogram (registries of 0-2 tomograms under arbitrary ids: the new tomogram gets an unused id, "
-            "earlier tomograms and rows are kept; an explicit id that is already registered is excluded by requires), "
+            "earlier tomograms and rows are kept; an explicit id that is already registered replaces that tomogram: recorded "
+            "known finding), "
             "LoaderBase.classify and align_multi_templates (row pairing) are under contract; loader groups, add_loader and "
             "BatchLoader's write-back are not."),
     "C05": ("DESIGN.md section 2 / C05",
             "Deductive, all inputs: for every max_shifts >= 0 (not only the 1/20 grid) the backend alignment kernels "
             "(_create_mesh, upsample, subpixel_zncc/ncc/pcc/fsc, crop_by_max_shifts, ncc_landscape chain) raise no "
-            "IndexError/shape error and return |shift_i| <= max_shifts_i; modular proofs over callee contracts.",
-            NOTE + "fsc_landscape and _upsampled_dft have trusted shape contracts (loops / complex exponentials)."),
+            "IndexError/shape error and return |shift_i| <= max_shifts_i; ncc_landscape_no_pad never divides by a zero element "
+            "(finite landscape for windows without variance); modular proofs over callee contracts.",
+            NOTE + "fsc_landscape and _upsampled_dft have trusted shape contracts (loops / complex exponentials): 'finite "
+            "score' is not claimed for the FSC model (observed: NaN score for a constant sub-volume, DESIGN.md section 2 / C05); "
+            "trusted axiom x > 0 => sqrt(x) > 0."),
     "C06": ("DESIGN.md section 2 / C06",
             "Deductive for the decode step: for all template counts T, rotation counts K and all (j,k), a best flat "
             "candidate index k*T+j is reported as rotation quaternions[k] and label j by RotationImplemented.align "
